@@ -109,7 +109,7 @@ pub fn decode_ops(data: &[u8]) -> Vec<Op> {
             8..=11 => Op::Shift([0usize, 1, 2, 3, 3, 6, 9, 12, 4, 5][a as usize % 10]),
             12 => Op::Fput(digits(&mut r)),
             13 => Op::Push(digits(&mut r)),
-            14 => Op::Freeze,
+            14 => if a > 200 { Op::PutZeros(a as u16 + 56) } else { Op::Freeze },
             _ => Op::Reset,
         });
     }
